@@ -43,6 +43,11 @@ def parseOp {α : Type} (c : Codec α) (ts : List String) : Option (Op α) :=
   let nat (s : String) : Option Nat := s.toNat?
   match ts with
   | "newp" :: h :: vs => do some (.newp (← nat h) (← vs.mapM c.parse))
+  -- initializer-list members (0..4 elements): `Array(std::initializer_list<T>)`, `operator=(initializer_list)`,
+  -- `append(initializer_list)` are the same statements as `Array(p, n)` / `copy(p, n)` / `append(p, n)` with `p` outside
+  | "newil" :: h :: vs => do if vs.length ≤ 4 then some (.newp (← nat h) (← vs.mapM c.parse)) else none
+  | "asgil" :: h :: vs => do if vs.length ≤ 4 then some (.copyp (← nat h) (← vs.mapM c.parse)) else none
+  | "appil" :: h :: vs => do if vs.length ≤ 4 then some (.appp (← nat h) (← vs.mapM c.parse)) else none
   | "copyp" :: h :: vs => do some (.copyp (← nat h) (← vs.mapM c.parse))
   | "appp" :: h :: vs => do some (.appp (← nat h) (← vs.mapM c.parse))
   | ["sortby", h, a] => do some (.sortby (← nat h) ((← nat a) != 0))
@@ -122,6 +127,30 @@ def run1 {α : Type} [DecidableEq α] (E : Elem α) (c : Codec α) (showLive : B
         let caps := ",".intercalate (st'.caps.map fun o => match o with | some k => toString k | none => "-")
         (st', showRes c r ++ " | " ++ views ++ " | K" ++ caps ++ (if showLive then s!" | L{st'.live}" else ""))
 
+/-- `sortc h mode` (counted elements): the sort `mode` of slot `h`, answering with the number of element temporaries the
+sort copy-constructs and the most that are alive at once (`qsortListT`: the ledgered run function, whose sequence is
+`qsortList`'s by `sort_temporaries_destroyed`) -/
+def run1c {α : Type} [DecidableEq α] (E : Elem α) (c : Codec α) (showLive : Bool) (st : St α) (ts : List String) :
+    St α × String :=
+  match ts with
+  | ["sortc", h, mode] =>
+    if !showLive then (st, "bad-op") else
+    match h.toNat?, mode.toNat? with
+    | some hh, some m =>
+      let m := m % 4
+      let lt : α → α → Bool := if m = 1 then fun a b => E.lt b a else if m = 2 then fun a b => decide (E.key a < E.key b)
+        else if m = 3 then fun a b => decide (E.key b < E.key a) else E.lt
+      let tmp := (st.elemsOf (hh % NS)).bind fun l => qsortListT lt l ⟨st.live, 0, 0, st.live⟩
+      let (st', out) := run1 E c showLive st
+        (if m = 1 then ["sortd", h] else if m = 2 then ["sortby", h, "1"] else if m = 3 then ["sortby", h, "0"] else ["sort", h])
+      if out.startsWith "ok |" then
+        match tmp with
+        | some (_, t) => (st', s!"t {t.made} {t.peak - st.live}" ++ (out.drop 2).toString)
+        | none => (st', "model-fault sortc")
+      else (st', out)
+    | _, _ => (st, "bad-op")
+  | _ => run1 E c showLive st ts
+
 structure All where
   i : Array (St Int)
   s : Array (St Bytes)
@@ -194,7 +223,7 @@ def step (a : All) (ts : List String) : All × String :=
           let (st, out) := run1 strElem bytesCodec false (a.s.getD ci St.init) rest
           ({ a with s := a.s.set! ci st }, out)
         else if t = 'c' then
-          let (st, out) := run1 (intElem 8) intCodec true (a.c.getD ci St.init) rest
+          let (st, out) := run1c (intElem 8) intCodec true (a.c.getD ci St.init) rest
           ({ a with c := a.c.set! ci st }, out)
         else (a, "bad-op")
     | _ => (a, "bad-op")
